@@ -361,10 +361,26 @@ class ClassModel:
         return get_attr(self, k)
 
     # ---- construction
+    def is_module(self):
+        """an equinox Module (frozen dataclass) as opposed to a plain Python class"""
+        return any(isinstance(b, ExternalClass) and b.name == 'eqx.Module' for c in self.mro() for b in c.bases)
+
     def __call__(self, *args, **kw):
         fields = self.all_fields()
         inst = Inst(self, {})
         inst._mutable = True
+        init, _ = self.lookup('__init__')
+        if init is not None:
+            # a hand-written constructor: a plain class stays mutable afterwards, a Module is frozen once __init__ returns
+            r = init(inst, *args, **kw)
+            if r is not None:
+                raise AbstractRaise(TypeError(f"__init__() should return None, not {type(r).__name__!r}"))
+            inst._mutable = not self.is_module()
+            return inst
+        if not fields and not self.is_module():
+            if args or kw:
+                raise AbstractRaise(TypeError(f"{self.name}() takes no arguments"))
+            return inst                       # plain class without constructor: mutable, no fields
         pos = [f for f in fields if f.init and not f.kw_only]
         if len(args) > len(pos):
             raise AbstractRaise(TypeError(f"{self.name}() takes {len(pos)} positional arguments but {len(args)} were given"))
@@ -742,6 +758,108 @@ class Interp:
 
     def st_ClassDef(self, st, env):
         env.set(st.name, ClassModel(st, env, self, env.module.name if env.module else "?"))
+
+    # ---- structural pattern matching (PEP 634): the first case whose pattern matches and whose guard holds is executed
+    def st_Match(self, st, env):
+        subj = self.ev(st.subject, env)
+        for case in st.cases:
+            binds = {}
+            if not self.match_pattern(case.pattern, subj, env, binds):
+                continue
+            for k, v in binds.items():
+                env.set(k, v)
+            if case.guard is not None and not self.truth(self.ev(case.guard, env), case.guard):
+                continue
+            self.block(case.body, env)
+            return
+
+    def isinstance_(self, v, cls):
+        return self.world.builtins['isinstance'](v, cls)
+
+    def match_pattern(self, p, subj, env, binds):
+        if isinstance(p, ast.MatchValue):
+            r = self._eq(subj, self.ev(p.value, env))
+            if isinstance(r, Pred):
+                if r.kind in ('true', 'false'):
+                    return r.kind == 'true'
+                raise Top(f"match on a non-concrete subject `{ast.unparse(p.value)}`")
+            return bool(r)
+        if isinstance(p, ast.MatchSingleton):
+            return subj is p.value
+        if isinstance(p, ast.MatchAs):
+            if p.pattern is not None and not self.match_pattern(p.pattern, subj, env, binds):
+                return False
+            if p.name is not None:
+                binds[p.name] = subj
+            return True
+        if isinstance(p, ast.MatchOr):
+            for alt in p.patterns:
+                b = {}
+                if self.match_pattern(alt, subj, env, b):
+                    binds.update(b)
+                    return True
+            return False
+        if isinstance(p, ast.MatchClass):
+            cls = self.ev(p.cls, env)
+            if not self.isinstance_(subj, cls):
+                return False
+            if p.patterns:
+                names = None
+                if isinstance(cls, ClassModel):
+                    names, _ = cls.lookup('__match_args__')
+                    if names is None:
+                        names = tuple(f.name for f in cls.all_fields() if f.init and not f.kw_only)
+                elif cls in (int, float, str, bool, tuple, list, dict, set, frozenset, bytes) and len(p.patterns) == 1:
+                    return self.match_pattern(p.patterns[0], subj, env, binds)
+                if names is None or len(p.patterns) > len(names):
+                    raise Top(f"positional class pattern on {cls!r}")
+                for sub, n in zip(p.patterns, names):
+                    if not self.match_pattern(sub, self.getattr(subj, n), env, binds):
+                        return False
+            for n, sub in zip(p.kwd_attrs, p.kwd_patterns):
+                try:
+                    v = self.getattr(subj, n)
+                except AttributeError:
+                    return False
+                if not self.match_pattern(sub, v, env, binds):
+                    return False
+            return True
+        if isinstance(p, ast.MatchSequence):
+            if not isinstance(subj, (tuple, list)):
+                if isinstance(subj, (str, bytes, dict, set, frozenset, int, float, bool, Inst, ClassModel)) or subj is None:
+                    return False
+                raise Top(f"sequence pattern on {type(subj).__name__}")
+            vals = list(subj)
+            star = [i for i, e in enumerate(p.patterns) if isinstance(e, ast.MatchStar)]
+            if not star:
+                if len(vals) != len(p.patterns):
+                    return False
+                return all(self.match_pattern(sp, v, env, binds) for sp, v in zip(p.patterns, vals))
+            i = star[0]
+            n_after = len(p.patterns) - i - 1
+            if len(vals) < len(p.patterns) - 1:
+                return False
+            head, mid, tail = vals[:i], vals[i:len(vals) - n_after], vals[len(vals) - n_after:]
+            if not all(self.match_pattern(sp, v, env, binds) for sp, v in zip(p.patterns[:i], head)):
+                return False
+            if p.patterns[i].name is not None:
+                binds[p.patterns[i].name] = list(mid)
+            return all(self.match_pattern(sp, v, env, binds) for sp, v in zip(p.patterns[i + 1:], tail))
+        if isinstance(p, ast.MatchMapping):
+            if not isinstance(subj, dict):
+                return False
+            seen = []
+            for k, sp in zip(p.keys, p.patterns):
+                kv = self.ev(k, env)
+                if kv not in subj:
+                    return False
+                seen.append(kv)
+                if not self.match_pattern(sp, subj[kv], env, binds):
+                    return False
+            if p.rest is not None:
+                binds[p.rest] = {k: v for k, v in subj.items() if k not in seen}
+            return True
+        raise Top("match pattern " + type(p).__name__)
 
     # ---- binding
     def bind(self, t, v, env):
